@@ -97,6 +97,38 @@ def run(ctx):
     nones = [(bi, st) for bi, blk in enumerate(g.blocks) if not blk.get("cleanup") for st in blk["st"]
              if st["d"]["l"] == 0 and not st["d"]["p"] and st["rv"]["k"] == "Agg" and st["rv"].get("adt") == "core::option::Option" and st["rv"].get("variant") == "None"]
     ctx.floor("explicit None returns of generate_sync_message", len(nones), 2)
+    # ... and only for one of three reasons: the peer's heads are ours, we are read-only, or a message is still unanswered
+    level, ro, infl_t = [], [], []
+    for sb, sw in g.switches():
+        src = g.bool_operand_source(sw["op"])
+        if not src:
+            continue
+        zero = [tb for v, tb in sw["targets"] if v == "0"]
+        te = [(sb, zero[0])] if src["negated"] and zero else ([] if src["negated"] else [(sb, sw["otherwise"])])
+        if src["kind"] == "call" and (norm_fn(src.get("decl") or src["callee"]) or "").endswith("PartialEq::eq"):
+            t = src["t"]
+            fl, heads = set(), False
+            for a in t["args"]:
+                pv = g.provenance(a, through_calls=True)
+                heads = heads or any(norm_fn(c) == "automerge::automerge::Automerge::get_heads" for c in pv.callees())
+                for l, pr in pv.places:
+                    o = g.origin(l, pr)
+                    if o[0] == sp:
+                        fl |= {e for e in o[1] if e.startswith(".")}
+            if fl == {".their_heads"} and heads:
+                level += te
+        if src["kind"] == "place" and src["origin"][0] == sp:
+            fs = [e for e in src["origin"][1] if e.startswith(".")]
+            if fs == [".read_only"]:
+                ro += te
+            if fs == [".in_flight"]:
+                infl_t += te
+    ctx.floor("tests their_heads == our_heads", len(level), 1)
+    for k, (bi, st) in util.ordinal_keys(nones, lambda it: "generate_sync_message|None"):
+        reasons = level + ro + infl_t
+        okr = bool(reasons) and g.edges_dominate(reasons, bi)
+        ctx.ob("Y1", k + "|reason", okr, st["sp"], "their heads are ours, we are read-only, or a message is in flight" if okr else
+               "generate_sync_message can go quiet for a reason other than `their heads == our heads`, read-only or an unanswered message: with heads that differ nobody speaks again")
     for k, (bi, st) in util.ordinal_keys(nones, lambda it: "generate_sync_message|None"):
         ok = g.edges_dominate(unchanged, bi) and g.edges_dominate(responded, bi)
         ctx.ob("Y1", k, ok, st["sp"], "quiet only after the current heads were sent" if ok else
